@@ -1,6 +1,6 @@
 """C25 — xlsx import never crashes (navigation skeleton + structure-aware tie + byte-level search)"""
 from common import *
-import os, subprocess
+import os, subprocess, json
 
 ASSUMPTIONS = [
   "PROOF covers the navigation skeleton only (Xlsx/Skeleton.v): workbook.xml, workbook.xml.rels, styles.xml (fonts/fills/borders[left]/cellStyleXfs/cellStyles/cellXfs/dxfs, colours), worksheet parts (cols, sheetPr/tabColor, sheetData rows/cells/formulas, mergeCells, hyperlinks), sheet rels, comments and table parts, reparse_formula_hack. Conditional formatting, theme, metadata, sheet views and dimension are not in the skeleton (theme/metadata errors are swallowed by the code; the others have no failing path that the generators exercise).",
@@ -26,10 +26,29 @@ def pre_proof(cfg):
         return "Witness_c25.v regenerated"
     return "Witness_c25.v unchanged"
 
+def _fixed_classes(root):
+    """classes of findings recorded as fixed in known/C25.jsonl: a recurrence must be a VIOLATION even
+    while a stale 'known' line for the same class is still in known_findings.jsonl"""
+    res = {}
+    path = os.path.join(root, "known/C25.jsonl")
+    if os.path.exists(path):
+        for line in open(path):
+            line = line.strip()
+            if line:
+                r = json.loads(line)
+                if r.get("status") == "fixed":
+                    res[r["class"]] = r
+    return res
+
 def run(cfg):
     rc, log, meta = run_harness(cfg, "c25")
     if rc != 0:
         return {"evaluations": 0, "distinct_nontrivial": 0, "disagreements": [{"input": "harness", "impl": "exit %d" % rc, "model": log[-500:]}], "oracle_failures": []}
+    fixed = _fixed_classes(cfg["root"])
+    for f in meta.get("oracle_failures", []):
+        k = fixed.get(f.get("class"))
+        if k is not None:
+            f["class"] = "REGRESSION of %s (fixed in %s): %s" % (k["id"], k.get("commit", "?"), f["class"])
     rc2, err = run_model(cfg, "c25")
     n, ndis, dis = diff_lines(cfg, "c25", limit=6)
     for d in dis:
@@ -63,6 +82,6 @@ def run(cfg):
             "hangs": meta.get("hangs", 0), "max_case_ms": meta.get("max_case_ms", 0),
             "oracle_checked": meta.get("oracle_checked", 0),
             "oracle_failures_per_class": meta.get("oracle_failures_per_class", {}),
-            "labels": {"proof": "navigation skeleton (C25_partial, C25_refuted_*)", "tie": "structured stream", "search": "text-payload stream, byte-level stream and hazard witnesses"},
+            "labels": {"proof": "navigation skeleton (C25_import_never_panics, C25_fixed_*), decoder cursor (C25_decode_escapes_index_safe)", "tie": "structured stream", "search": "text-payload stream, byte-level stream and hazard witnesses"},
         },
     }
